@@ -339,6 +339,7 @@ class Link:
         self.chunker = None         # optional callable(end, n, tape) -> k
         self.owner = None           # set by worlds
         self.picker = None          # message mode: callable(end) -> index
+        self.tap = None             # callable(end, data) just before delivery
         self.label = None
 
     def kill_from_client_attempt(self):
@@ -513,6 +514,8 @@ class Net:
             data = end.inflight.pop(idx)
             end.rx_count += 1
         proto = end.protocol
+        if link.tap is not None:
+            link.tap(end, data)
         try:
             proto.dataReceived(data)
         except Exception:
